@@ -4,14 +4,17 @@ sys.path.insert(0, os.path.dirname(os.path.dirname(os.path.abspath(__file__))))
 import vlib
 
 MANIFEST = dict(
-    level=("proof", "Twenty-two Coq theorems over an executable model of path.c's directory walk (chains of any "
+    level=("proof", "Twenty-seven Coq theorems over an executable model of path.c's directory walk (chains of any "
            "length: secure <-> every directory acceptable, first offender and complaint reported), the key/seed/log "
            "file vetting of conf.c/random.c/munged.c with the whole process identity (real/effective/saved uid and "
            "gid) as an explicit parameter and every rule stated for the EFFECTIVE uid, the order of the start-up "
            "checks, the mode/umask recipe of the five created files (all 512 umasks, foreground and daemon mode) and "
            "which directory walks run as a function of the site and of what is at the file's name (verdict on the chain "
            "proved independent of the leaf's prior state), "
-           "their creation as an operation on the prior state of the directory entry (nothing / file of any type, "
+           "their creation as an operation on the prior state of the directory entry AND on what the process may do in "
+           "the directory that holds it (remove a name, create a name: unlink can fail with EACCES for a daemon that is "
+           "not root, open then reuses the old inode; the mode reset of the reused file is a fact observed with strace, "
+           "the source without it is refuted by witness); prior state: (nothing / file of any type, "
            "owner, mode / symlink / dangling symlink: unlink-then-create vs open-in-place), proved for every prior "
            "state; flag values, permission bits, the flags each call site passes, the recipes, unlink-before-create "
            "and open flags (strace + --wrap) and which uid each ownership test consults (starts with real != "
@@ -537,6 +540,47 @@ def gen_daemon_cases(ctx):
                         if site == "sock" and leaf is not None and k % 2:
                             c["lock"] = {"type": "reg", "uid": 0, "gid": 0, "mode": 0o200}   # left by the last run
                         add("cross", c)
+    # --- a daemon that is NOT root whose seed and/or pid file live in a directory that is secure (root-owned 0755)
+    #     but not writable by it, with a file there already: unlink fails (EACCES), open() reuses the old file,
+    #     mode and all.  Modes are looked at while running (pid) and after a clean stop (seed).
+    nr_modes = (0o600, 0o644, 0o666, 0o640, 0o700, 0o400)
+    nr_umasks = (0o022, 0o000, 0o077, 0o027, 0o777) if T else (0o022, 0o000, 0o077)
+    k = 0
+    for which in (("seed",), ("pid",), ("seed", "pid")):
+        for owner in ((EUID2, 0, FOREIGN) if T else (EUID2, 0)):
+            for m in nr_modes:
+                for fg in (True, False):
+                    for um in (nr_umasks if T else (nr_umasks[k % 3],)):
+                        k += 1
+                        if not T and owner == 0 and (m not in (0o666, 0o644) or len(which) == 2 or not fg):
+                            continue
+                        c = base_case(fg=fg, euid=EUID2, umask=um)
+                        if k % 4 == 0:
+                            c["ids"] = (EUID2, EUID2, EGID2, EGID2)
+                        for site in which:
+                            c["dirs"][site] = [(0, 0, 0o755)]
+                            c[site] = {"type": "reg", "uid": owner, "gid": 0, "mode": m}
+                        add("noremove", c)
+    for site in ("seed", "pid"):        # nothing there, and the directory not writable: nothing can be created
+        for fg in (True, False):
+            c = base_case(fg=fg, euid=EUID2)
+            c["dirs"][site] = [(0, 0, 0o755)]
+            add("noremove", c)
+    if T:
+        for site in ("seed", "pid"):    # the same through a symlink root planted there
+            for typ in ("symlink", "dangling"):
+                for fg in (True, False):
+                    c = base_case(fg=fg, euid=EUID2)
+                    c["dirs"][site] = [(0, 0, 0o755)]
+                    c[site] = {"type": typ, "uid": EUID2, "gid": 0, "mode": 0o666}
+                    add("noremove", c)
+        for site in ("seed", "pid"):    # group-writable for the trusted group the daemon is not in; sticky root-owned
+            for (attr, tg) in (((0, TGID, 0o775), TGID), ((0, 0, 0o1755), None)):
+                for m in (0o644, 0o666):
+                    c = base_case(fg=True, euid=EUID2, tg=tg)
+                    c["dirs"][site] = [attr]
+                    c[site] = {"type": "reg", "uid": EUID2, "gid": 0, "mode": m}
+                    add("noremove", c)
     # --- random combinations (order of the checks, several faults at once)
     for _ in range(8000 if T else 150):
         e = rng.choice((0, 0, 0, EUID2))
@@ -836,7 +880,7 @@ def run_daemon_case(exe, top, idx, case):
                     break
                 # started = the pid has been written; when a directory sits at the pid file's name the daemon
                 # says so on stderr instead (write_pidfile is the last step of the start-up either way)
-                if reg_nonempty(paths["pid"]) or b"Failed to open PIDfile" in open(errf, "rb").read():
+                if reg_nonempty(paths["pid"]) or re.search(rb"Failed to (open|set permissions of) PIDfile", open(errf, "rb").read()):
                     started = True
                     break
                 time.sleep(0.004)
@@ -905,9 +949,12 @@ def run_daemon_case(exe, top, idx, case):
                 pass
         obs["text"] = text[-1500:]
         obs["seed_used"] = bool(re.search(r'Seeded PRNG with \d+ bytes? from "%s"' % re.escape(paths["seed"]), text))
+        obs["seed_wrote"] = bool(re.search(r'Wrote \d+ bytes? to PRNG seed "%s"' % re.escape(paths["seed"]), text))
+        obs["pid_wrote"] = bool(obs.get("pid_content"))
         if started:
-            impl = "U start sock=%s lock=%s pid=%s log=%s seed=%s used=%d removed=%d" % (
-                obs["sock"], obs["lock"], obs["pid"], obs["log"], obs["seed"], obs["seed_used"], obs["seed_removed"])
+            impl = "U start sock=%s lock=%s pid=%s log=%s seed=%s used=%d removed=%d pidw=%d wrote=%d" % (
+                obs["sock"], obs["lock"], obs["pid"], obs["log"], obs["seed"], obs["seed_used"], obs["seed_removed"],
+                obs["pid_wrote"], obs["seed_wrote"])
         elif obs.get("hung"):
             impl = "U hung"
         else:
@@ -960,6 +1007,20 @@ def created_file_clause(name, bound, exact, ftype, after, before, euid, umask, i
     return None
 
 
+def may_remove_at(case, site, prior):
+    """may the daemon remove a name from the directory that holds the file of `site` (stated independently of the
+    model): uid 0 always; otherwise write permission on that directory by owner/group/other class, and in a
+    sticky directory only the owner of the directory or of the file"""
+    ruid, euid, rgid, egid = ids_of(case)
+    if euid == 0:
+        return True
+    u, g, m = case["dirs"][site][-1]
+    w = bool(m & 0o200) if u == euid else bool(m & 0o020) if g == egid else bool(m & 0o002)
+    if w and (m & 0o1000) and u != euid and not (prior.get("type") and not prior["sym"] and prior.get("uid") == euid):
+        return False
+    return w
+
+
 def daemon_property(case, obs, tail, before):
     """the property itself, judged on what the daemon did; tail = chain above the run root (root first... leaf
     first order is irrelevant: every element is checked).  Every ownership rule is about the EFFECTIVE uid."""
@@ -995,9 +1056,26 @@ def daemon_property(case, obs, tail, before):
             w = created_file_clause("lock file", 0o200, True, "r", obs["lock"], before["lock"], euid, um, ids)
             if w:
                 return w
-        w = created_file_clause("pid file", 0o644, False, "r", obs["pid"], before["pid"], euid, um, ids)
-        if w:
-            return w
+        # the pid file: the clause is about the file that holds THIS daemon's pid.  When the daemon may remove the
+        # old name (root always may) the file must be brand-new: within 0644, its own, no symlink.  When it may not
+        # (not root, directory not writable by it) the old file is reused: within 0644 if it is the daemon's own;
+        # a file of another owner that it may write but neither remove nor chmod keeps its mode (observation)
+        pb = parse_fobs(before["pid"])
+        if obs.get("pid_wrote"):
+            if may_remove_at(case, "pid", pb) or pb["type"] is None:
+                w = created_file_clause("pid file", 0o644, False, "r", obs["pid"], before["pid"], euid, um, ids)
+                if w:
+                    return w
+            else:
+                pa = parse_fobs(obs["pid"])
+                if pa["type"] == "r" and pa["uid"] == euid and (pa["mode"] & ~0o644):
+                    return ("pid file mode %04o is more permissive than 0644: the daemon (uid %d, not root) could not "
+                            "remove its old pid file from a directory it may not write to (%s) and reused it, mode and "
+                            "all (there before the start: %s; inherited umask %03o)"
+                            % (pa["mode"], euid, case["dirs"]["pid"][-1], before["pid"], um))
+                if pa["type"] == "r" and pa["uid"] != euid and (pa["mode"] & ~0o644):
+                    obs["note_foreign_pid"] = "pid written into %s (before: %s), a file of another owner the daemon may " \
+                        "write but neither remove nor chmod" % (obs["pid"], before["pid"])
         if obs.get("pid_content") is not None and obs.get("daemon_pid") and obs["pid_content"] != str(obs["daemon_pid"]):
             return "pid file holds %r, the daemon's pid is %d" % (obs["pid_content"], obs["daemon_pid"])
         if not case["fg"] and parse_fobs(before["log"])["type"] is None and not parse_fobs(before["log"])["sym"]:
@@ -1013,15 +1091,31 @@ def daemon_property(case, obs, tail, before):
                         "(there before the start: %s; process ruid:euid:rgid:egid = %s)" % (lg["uid"], euid, before["log"], ids))
             if lg["sym"]:
                 return "log file is reached through a symbolic link (there before the start: %s)" % before["log"]
-        w = created_file_clause("seed file", 0o600, False, "r", obs["seed"], before["seed"], euid, um, ids)
-        if w:
-            return w
+        # the seed: what the daemon leaves at the name after a clean stop.  Removable old name: as before.  Not
+        # removable (not root, directory not writable): a seed failing the checks is ignored and not used; whatever
+        # the daemon then writes there at exit must be its own file and within 0600
+        sb = parse_fobs(before["seed"])
+        seed_removable = may_remove_at(case, "seed", sb)
+        if seed_removable or sb["type"] is None:
+            w = created_file_clause("seed file", 0o600, False, "r", obs["seed"], before["seed"], euid, um, ids)
+            if w:
+                return w
+        elif obs.get("seed_wrote"):
+            sa = parse_fobs(obs["seed"])
+            if sa["type"] == "r" and (sa["mode"] & ~0o600):
+                return ("seed file mode %04o is more permissive than 0600 after the daemon wrote a new seed into it: the "
+                        "daemon (uid %d, not root) could not remove the old seed from a directory it may not write to "
+                        "(%s) and reused it, mode and all (there before the start: %s; inherited umask %03o)"
+                        % (sa["mode"], euid, case["dirs"]["seed"][-1], before["seed"], um))
+            if sa["type"] == "r" and sa["uid"] != euid:
+                return ("a new seed was written into a file of uid %d, not of the effective uid %d (there before the "
+                        "start: %s)" % (sa["uid"], euid, before["seed"]))
         sd = case["seed"]
         if sd is not None and sd["type"] != "missing":
             ok = acceptable_file(sd, euid, 0o066)
             if not ok and obs["seed_used"]:
                 return "a seed file failing the ownership/permission checks was used (%s; effective uid %d, process %s)" % (sd, euid, ids)
-            if not ok and sd["type"] != "dir" and not obs["seed_removed"]:
+            if not ok and sd["type"] != "dir" and not obs["seed_removed"] and seed_removable:
                 return "a seed file failing the ownership/permission checks was not removed (%s)" % sd
     elif case["lock"] is None:
         # a refused start must not leave a wrong lock file behind either
@@ -1103,7 +1197,9 @@ def run(ctx):
         "effective uid/gid and key/seed/log/lock/directories owned by the real, the effective, root's or a foreign "
         "uid; with a regular file of assorted owners and modes / symlink / dangling symlink / directory / FIFO / "
         "socket already sitting at the pid, socket, lock, seed and log name; every directory defect on each ancestor "
-        "of each of the five names crossed with name free / file there (good, bad mode) x foreground/daemon mode); "
+        "of each of the five names crossed with name free / file there (good, bad mode) x foreground/daemon mode; a "
+        "non-root daemon whose seed/pid file sits, already there with assorted owners and modes, in a secure directory "
+        "it may not write to: unlink fails, the old file is reused); "
         "each answer judged by an independent "
         "statement of the property and diffed with the extracted model; non-trivial = every case")
     oracle = vlib.build_oracle(ctx, "path")
@@ -1273,6 +1369,11 @@ def run(ctx):
                 break
         if obs_log:
             ctx.notes.append("observation replayed on the real daemon: " + obs_log)
+        fpn = [r["obs"]["note_foreign_pid"] for r in results if "obs" in r and r["obs"].get("note_foreign_pid")]
+        if fpn:
+            ctx.notes.append("observation replayed on the real daemon (%d runs): %s; the fchmod that resets the mode of a "
+                             "reused pid file fails (EPERM) and is only a warning (C16_pid_any_prior, last clause; "
+                             "proposed: seeded/fixes/c16-pid-rechmod-fatal.diff)" % (len(fpn), fpn[0]))
         hungl = [r for r in results if "obs" in r and r["obs"].get("hung") and (r["case"].get("lock") or {}).get("type") == "fifo"]
         if hungl:
             ctx.notes.append("observation replayed on the real daemon (%d runs): a FIFO at the lock file's name blocks the "
